@@ -252,9 +252,11 @@ theorem CUSTOM_TRAIT_shape (j : Json) (h : validate trait.CUSTOM_TRAIT j = true)
 /-! ### schemas of the tree that do NOT guarantee their shape (DESIGN §9-E, §9-F)
 
 `allocation_ratio` is `{"type": "number", "maximum": …}`: NaN passes every comparison, `-Infinity` is below
-the maximum; `Inventory.capacity` then calls `int()` on a non-finite float.  `inventories` has
-`patternProperties` but no `additionalProperties: false`: a key that is not a resource class name is not
-validated at all and `_extract_inventories` calls `dict.update` with whatever value it has.
+the maximum; `Inventory.capacity` would call `int()` on a non-finite float.  The handlers now reject such a
+ratio themselves (`make_inventory_object`, fix: 0e49146), but the SCHEMA still admits it, so the shape theorems
+below stay `_partial` in that one respect.  `inventories` used to have `patternProperties` without
+`additionalProperties: false` (a key that is not a resource class name was not validated at all); that hole is
+closed (fix: e35e82f) and the former witnesses are now proved to be rejected.
 Full statements (not provable), witnesses, and what does hold. -/
 
 /-- PUT one inventory: full statement -/
@@ -294,56 +296,33 @@ theorem POST_INVENTORY_SCHEMA_shape_partial (j : Json) (h : validate inventory.P
 def PUT_INVENTORY_SCHEMA_shape : Prop :=
   ∀ j, validate inventory.PUT_INVENTORY_SCHEMA j = true → sat (putInventoriesShape true true) j = true
 
-/-- `{"resource_provider_generation": 0, "inventories": {"vcpu": 5}}` -/
+/-- `{"resource_provider_generation": 0, "inventories": {"vcpu": 5}}`: a key that is not a resource class name.
+Before the repair of §9-F (`additionalProperties: false` on `inventories`, a `fix:` commit) this document was
+accepted and `_extract_inventories` failed on its value (500). -/
 def lowerCaseKeyDoc : Json :=
   .obj [("resource_provider_generation", .int 0), ("inventories", .obj [("vcpu", .int 5)])]
 
-theorem PUT_INVENTORY_SCHEMA_shape_witness :
-    validate inventory.PUT_INVENTORY_SCHEMA lowerCaseKeyDoc = true ∧
-      sat (putInventoriesShape true true) lowerCaseKeyDoc = false ∧
-      sat (putInventoriesShape false true) lowerCaseKeyDoc = false := by
+/-- the former witness is rejected by the schema in the tree -/
+theorem PUT_INVENTORY_SCHEMA_rejects_unvalidated_key :
+    validate inventory.PUT_INVENTORY_SCHEMA lowerCaseKeyDoc = false := by
   decide
 
-/-- second, independent hole: a well-keyed record with a NaN ratio -/
+/-- the remaining hole: a well-keyed record with a NaN ratio -/
 def nanRatioInventoriesDoc : Json :=
   .obj [("resource_provider_generation", .int 0),
         ("inventories", .obj [("VCPU", .obj [("total", .int 4), ("allocation_ratio", .nan)])])]
 
 theorem PUT_INVENTORY_SCHEMA_shape_witness_nan :
     validate inventory.PUT_INVENTORY_SCHEMA nanRatioInventoriesDoc = true ∧
-      sat (putInventoriesShape true true) nanRatioInventoriesDoc = false ∧
-      sat (putInventoriesShape true false) nanRatioInventoriesDoc = false := by
+      sat (putInventoriesShape true true) nanRatioInventoriesDoc = false := by
   decide
 
-/-- … what holds: the records under keys that ARE resource class names have the record shape up to
-finiteness of the ratio -/
+/-- … what holds: EVERY key of `inventories` is a resource class name and every value an inventory record, up to
+finiteness of the ratio (which the handler checks itself, `make_inventory_object`) -/
 theorem PUT_INVENTORY_SCHEMA_shape_partial (j : Json) (h : validate inventory.PUT_INVENTORY_SCHEMA j = true) :
-    sat (putInventoriesShape false false) j = true := implies_sound _ _ _ (by decide) h
+    sat (putInventoriesShape false true) j = true := implies_sound _ _ _ (by decide) h
 
-/-- … and with `additionalProperties: false` added to `inventories` (the repair of §9-F) the key hole closes:
-the restricted case "every key of `inventories` matches the class pattern". -/
-theorem PUT_INVENTORY_SCHEMA_shape_restricted_partial (j : Json)
-    (h : validate inventory.PUT_INVENTORY_SCHEMA j = true)
-    (hkeys : ∀ invs, lookup "inventories" (fieldsOf j) = some invs →
-      ∀ kv ∈ fieldsOf invs, Regex.test common.RC_PATTERN kv.1 = true) :
-    sat (putInventoriesShape false true) j = true := by
-  have hp := PUT_INVENTORY_SCHEMA_shape_partial j h
-  simp only [putInventoriesShape, sat_field_iff] at hp ⊢
-  obtain ⟨kvs, rfl, ⟨kvs', hk', hrest, hinv, hreq2⟩, hgen, hreq⟩ := hp
-  cases hk'
-  refine ⟨kvs, rfl, ⟨kvs, rfl, hrest, ?_, hreq2⟩, hgen, hreq⟩
-  intro v hv
-  have h1 := hinv v hv
-  have h2 := hkeys v (by simpa [fieldsOf] using hv)
-  cases v <;> simp [sat] at h1 ⊢
-  rename_i invs
-  intro k w hm
-  have ht := h2 (k, w) (by simpa [fieldsOf] using hm)
-  have := h1 k w hm
-  simp only [ht] at this
-  exact ⟨ht, by simpa using this⟩
-
-/-- reshaper (1.30 – 1.33): full statement; the same two holes, nested one level down -/
+/-- reshaper (1.30 – 1.33): full statement; the same hole, nested one level down -/
 def POST_RESHAPER_SCHEMA_shape : Prop :=
   ∀ j, validate reshaper.POST_RESHAPER_SCHEMA j = true → sat (reshaperShape true true allocShape_1_28) j = true
 
@@ -351,25 +330,35 @@ def reshaperHoleDoc : Json :=
   .obj [("inventories", .obj [("11111111-1111-1111-1111-111111111111", lowerCaseKeyDoc)]),
         ("allocations", .obj [])]
 
+def reshaperNanDoc : Json :=
+  .obj [("inventories", .obj [("11111111-1111-1111-1111-111111111111", nanRatioInventoriesDoc)]),
+        ("allocations", .obj [])]
+
+/-- the former witness (unvalidated key inside the reshaper) is rejected -/
+theorem POST_RESHAPER_SCHEMA_rejects_unvalidated_key :
+    validate reshaper.POST_RESHAPER_SCHEMA reshaperHoleDoc = false ∧
+    validate reshaper.POST_RESHAPER_SCHEMA_V1_38 reshaperHoleDoc = false := by
+  decide
+
 theorem POST_RESHAPER_SCHEMA_shape_witness :
-    validate reshaper.POST_RESHAPER_SCHEMA reshaperHoleDoc = true ∧
-      sat (reshaperShape true true allocShape_1_28) reshaperHoleDoc = false := by
+    validate reshaper.POST_RESHAPER_SCHEMA reshaperNanDoc = true ∧
+      sat (reshaperShape true true allocShape_1_28) reshaperNanDoc = false := by
   decide
 
 theorem POST_RESHAPER_SCHEMA_shape_partial (j : Json) (h : validate reshaper.POST_RESHAPER_SCHEMA j = true) :
-    sat (reshaperShape false false allocShape_1_28) j = true := implies_sound _ _ _ (by decide) h
+    sat (reshaperShape false true allocShape_1_28) j = true := implies_sound _ _ _ (by decide) h
 
 theorem POST_RESHAPER_SCHEMA_V1_34_shape_partial (j : Json)
     (h : validate reshaper.POST_RESHAPER_SCHEMA_V1_34 j = true) :
-    sat (reshaperShape false false allocShape_1_34) j = true := implies_sound _ _ _ (by decide) h
+    sat (reshaperShape false true allocShape_1_34) j = true := implies_sound _ _ _ (by decide) h
 
 theorem POST_RESHAPER_SCHEMA_V1_38_shape_partial (j : Json)
     (h : validate reshaper.POST_RESHAPER_SCHEMA_V1_38 j = true) :
-    sat (reshaperShape false false allocShape_1_38) j = true := implies_sound _ _ _ (by decide) h
+    sat (reshaperShape false true allocShape_1_38) j = true := implies_sound _ _ _ (by decide) h
 
 theorem POST_RESHAPER_SCHEMA_V1_38_shape_witness :
-    validate reshaper.POST_RESHAPER_SCHEMA_V1_38 reshaperHoleDoc = true ∧
-      sat (reshaperShape true true allocShape_1_38) reshaperHoleDoc = false := by
+    validate reshaper.POST_RESHAPER_SCHEMA_V1_38 reshaperNanDoc = true ∧
+      sat (reshaperShape true true allocShape_1_38) reshaperNanDoc = false := by
   decide
 
 /-! hypotheses of the shape theorems are satisfiable (non-vacuity) -/
@@ -699,7 +688,7 @@ def expectedShapes (h : Handler) : List (Win × Shape) :=
   match h with
   | .inventory_create_inventory => [((first, last), postInventoryShape false)]
   | .inventory_update_inventory => [((first, last), putInventoryShape false)]
-  | .inventory_set_inventories => [((first, last), putInventoriesShape false false)]
+  | .inventory_set_inventories => [((first, last), putInventoriesShape false true)]
   | .allocation_set_allocations_for_consumer =>
     [((first, (1, 7)), allocShape_1_0), (((1, 8), (1, 11)), allocShape_1_8), (((1, 12), (1, 27)), allocShape_1_12),
      (((1, 28), (1, 33)), allocShape_1_28), (((1, 34), (1, 37)), allocShape_1_34), (((1, 38), last), allocShape_1_38)]
@@ -707,9 +696,9 @@ def expectedShapes (h : Handler) : List (Win × Shape) :=
     [(((1, 13), (1, 27)), postAllocShape 1 postAllocDoc_1_13), (((1, 28), (1, 33)), postAllocShape 1 allocShape_1_28),
      (((1, 34), (1, 37)), postAllocShape 1 allocShape_1_34), (((1, 38), last), postAllocShape 1 allocShape_1_38)]
   | .reshaper_reshape =>
-    [(((1, 30), (1, 33)), reshaperShape false false allocShape_1_28),
-     (((1, 34), (1, 37)), reshaperShape false false allocShape_1_34),
-     (((1, 38), last), reshaperShape false false allocShape_1_38)]
+    [(((1, 30), (1, 33)), reshaperShape false true allocShape_1_28),
+     (((1, 34), (1, 37)), reshaperShape false true allocShape_1_34),
+     (((1, 38), last), reshaperShape false true allocShape_1_38)]
   | .trait_update_traits_for_resource_provider => [(((1, 6), last), traitsForRpShape)]
   | .aggregate_set_aggregates => [(((1, 1), (1, 18)), aggregatesShape_1_1), (((1, 19), last), aggregatesShape_1_19)]
   | .resource_provider_create_resource_provider =>
